@@ -43,7 +43,7 @@ var c10Stream = []string{"srecv", "sctx", "ssend", "sgate", "secho", "srst", "sd
 func genC10(t *rapid.T) C10Case {
 	c := C10Case{Ser: rapid.Bool().Draw(t, "ser"), Stats: rapid.IntRange(0, 3).Draw(t, "stats") == 0}
 	c.ErrKind = rapid.SampledFrom(kit.FaultErrKinds).Draw(t, "err_kind")
-	nu := rapid.IntRange(0, 8).Draw(t, "nu")
+	nu := rapid.SampledFrom([]int{0, 1, 2, 3, 4, 5, 6, 7, 8, 9, 10, 12}).Draw(t, "nu") // more than eight: the ninth finds every unary worker busy
 	ns := rapid.IntRange(0, 8).Draw(t, "ns")
 	if nu+ns == 0 {
 		nu = 1
@@ -55,6 +55,13 @@ func genC10(t *rapid.T) C10Case {
 		c.Handlers = append(c.Handlers, C10Handler{Kind: rapid.SampledFrom(c10Stream).Draw(t, "skind")})
 	}
 	c.Ending = rapid.SampledFrom([]string{"readfail", "writefail", "stop"}).Draw(t, "ending")
+	if nu > 8 {
+		// goat runs eight unary handlers per connection; a ninth request waits in the read loop for a free worker (head-of-
+		// line blocking by design), and while it waits the read loop cannot notice a transport failure. The property speaks
+		// of at most eight unary handlers in flight, so with more requests than workers only Stop is used as the ending:
+		// it ends the wait, and whatever handlers did get started must then have their contexts cancelled.
+		c.Ending = "stop"
+	}
 	c.Pos = rapid.IntRange(0, 2*(nu+ns)+2).Draw(t, "pos")
 	c.Tape = rapid.SliceOfN(rapid.Byte(), 0, 16).Draw(t, "tape")
 	c.Orphan = rapid.IntRange(0, 2).Draw(t, "orphan") == 0
